@@ -858,6 +858,28 @@ impl Interp {
             }
             "batch" => self.op_batch(a),
             "ingest" => self.op_ingest(a),
+            // `bigfill <h> <count> <kib> <tag>`: `count` plain inserts of `kib` KiB of incompressible bytes
+            // under keys "bf" ++ tag ++ index (reaches the 64 MB journal rotation with real traffic)
+            "bigfill" => {
+                exact(a, 4)?;
+                let ks = self.state().ks(a[0])?;
+                let count: usize = a[1].parse().map_err(|_| Fail::BadOp)?;
+                let kib: usize = a[2].parse().map_err(|_| Fail::BadOp)?;
+                let tag = a[3];
+                let mut x: u64 = 0x9E37_79B9_7F4A_7C15 ^ (tag.len() as u64) ^ (count as u64);
+                for i in 0..count {
+                    let mut v = Vec::with_capacity(kib * 1024);
+                    while v.len() < kib * 1024 {
+                        x ^= x << 13;
+                        x ^= x >> 7;
+                        x ^= x << 17;
+                        v.extend_from_slice(&x.to_le_bytes());
+                    }
+                    let key = format!("bf{tag}{i:04}");
+                    ks.inner().insert(key.as_bytes(), v)?;
+                }
+                ok()
+            }
             "persist" => {
                 exact(a, 1)?;
                 let mode = parse_persist(a[0])?;
